@@ -563,7 +563,14 @@ func c18SigInto(info *types.Info, n ast.Node, inModule func(*types.Package) bool
 		if !ok {
 			return ""
 		}
-		se, ok := ast.Unparen(ix.X).(*ast.SelectorExpr)
+		base := ast.Unparen(ix.X)
+		if id, isID := base.(*ast.Ident); isID {
+			// `md := repo.Metadata; v, ok := md[k]`: the local stands for the field
+			if dd := defOf(info, n, id); dd != nil {
+				base = ast.Unparen(dd)
+			}
+		}
+		se, ok := base.(*ast.SelectorExpr)
 		if !ok || info.Selections[se] == nil {
 			return ""
 		}
